@@ -548,4 +548,13 @@ theorem coords_origin_is_centroid_of_nonempty {K : Type} [Field K] [CharZero K] 
       (if mask.get i j then zCC mask (zShift (K := K) mask) j else 0)) = 0 :=
   (coords_origin_is_centroid mask ((centroid_hypothesis_iff_nonempty mask).2 hne)).2.2
 
+/-- **where `zernike` takes its coordinates from** (the block between the mask cast and the index call, regenerated: `Gen.zernCoordSrc`):
+without `rho` the coordinates are `zernike_coordinates(mask)` — default shift and no rotation, i.e. the centroid origin of
+`coords_origin_is_centroid` — whatever `theta` is; `rho` without `theta` is refused (`ValueError`); with both, the caller's arrays are used
+unchanged ("arbitrary caller-supplied polar coordinates") -/
+theorem coordinate_source_dispatch (rhoNone thetaNone : Bool) :
+    Gen.zernCoordSrc rhoNone thetaNone =
+      if rhoNone = true then Gen.CoordSrc.default else if thetaNone = true then Gen.CoordSrc.refuse else Gen.CoordSrc.caller := by
+  cases rhoNone <;> cases thetaNone <;> rfl
+
 end Lentil.C11
